@@ -723,6 +723,9 @@ class VG:
                         'ty': '', 'sp': e.get('sp')}
                 return ('closure', id(e), {'k': 'closure', 'params': params, 'body': call, 'sp': e.get('sp')})
         if e.get('defkind') == 'Ctor(Variant, Const)' and e.get('callee', {}).get('krate') == self.F.raw['crate']:
+            from .places import OPTION_LIKE_NONE
+            if name in OPTION_LIKE_NONE:
+                return NONE             # the unit variant of an option-like enum
             return ('const', name)      # a unit variant of an enum of this crate
         return ('fnref', name)
 
@@ -949,6 +952,12 @@ class VG:
             if isinstance(a, tuple) and a and a[0] == 'ref':
                 a = self.deref(a)
             return some(a)
+        from .places import OPTION_LIKE_SOME
+        if name in OPTION_LIKE_SOME and len(args) == 1:
+            a = args[0]
+            if isinstance(a, tuple) and a and a[0] == 'ref':
+                a = self.deref(a)
+            return some(a)              # the payload variant of an option-like enum
         adt = self.F.adts.get(e.get('callee', {}).get('def'))
         if adt is not None and adt.get('kind') == 'Struct' and e.get('callee', {}).get('krate') == self.F.raw['crate']:
             # a tuple struct of this crate: its fields are `.0`, `.1`, .. (references stay references: a borrowing newtype)
@@ -1559,7 +1568,8 @@ class VG:
                     return self.prefix_bind.get(prefix, {}).get(ty['param'])
                 if 'adt' in ty:
                     b = self.prefix_bind.get(prefix, {})
-                    return {'adt': ty['adt'], 'args': [b.get(a['param'], a) if 'param' in a else a for a in ty.get('args', [])]}
+                    from .sir import norm_option_like_ty
+                    return norm_option_like_ty(self.F, {'adt': ty['adt'], 'args': [b.get(a['param'], a) if 'param' in a else a for a in ty.get('args', [])]})
                 if 'array' in ty or 'tuple' in ty:
                     return ty
                 return None
